@@ -24,3 +24,16 @@ PROPERTIES = {
         assumptions=["undecoded messages are built through hook H3 (OpaqueIpcMessage::new) instead of a transport"],
     ),
 }
+
+# ---- send_plan (C01, C02, C13 sending side) -----------------------------------------------------
+_sp_sym = "reported SO_SNDBUF in [4096, 2^24], message length in [0, 2^26], ENOBUFS pattern over the first 8 attempts (where named _enobufs)"
+_sp_b = "unwind 12; <= 10 transmission attempts per send (model capacity, more = outside the bound); attachments: none or sender+receiver+zero-length region"
+H("send_plan_noatt_nofault", ["C01", "C02"], features="k_rec", sym=_sp_sym, bounds=_sp_b)
+H("send_plan_att_nofault", ["C01", "C02", "C04"], features="k_rec", sym=_sp_sym, bounds=_sp_b)
+H("send_plan_noatt_enobufs", ["C13", "C02"], features="k_rec", sym=_sp_sym, bounds=_sp_b, timeout=1800)
+H("send_plan_att_enobufs", ["C13"], features="k_rec", sym=_sp_sym, bounds=_sp_b, timeout=1800)
+PROPERTIES.update({
+    "C01": dict(bounds="", outside="", assumptions=[]),
+    "C02": dict(bounds="", outside="", assumptions=[]),
+    "C13": dict(bounds="", outside="", assumptions=[]),
+})
